@@ -72,8 +72,11 @@ def mutation_kinds(enc):
     from vf.engine import faults
     out = []
     alph = sorted({c.encode(enc)[0] for c in '019-+ _A'} | {0x00, 0xff})
+    numerals = set(faults.structural_positions(st, names=('prefix', 'len')))
     for p in faults.structural_positions(st):
-        for v in alph:
+        # every byte value in the length numerals (characters that pass for digits in one test and not in another
+        # live above 0x7f), a 10-value alphabet elsewhere
+        for v in (range(256) if p in numerals else alph):
             if v != data[p]:
                 out.append('mut:%d:%d' % (p, v))
     return out
@@ -145,7 +148,8 @@ def check_case(case, acc):
     except mciipm.MciIpmDataError as ex:
         err = ex
     except Exception as ex:
-        acc.viol('c10.foreign_exception.%s' % kind, case, repr(ex), 'MciIpmDataError for record %d' % k)
+        acc.viol('c10.foreign_exception.%s' % ('mutation' if kind.startswith('mut:') else kind.split(':')[0]), case,
+                 repr(ex), 'MciIpmDataError for record %d' % k)
         return
     if err is None and kind.startswith('mut:'):
         return          # the single-byte change left a decodable record (or one C08 judges): nothing to report
@@ -229,7 +233,8 @@ def describe(tier, seed):
         'rule': 'files of n = 1..%d records x every faulty position k x fault kinds %s (truncated only for k = n) x '
                 '{VBS, 1014} x {latin_1, cp500}, read with a for loop and (five kinds) with next() followed by a for loop, '
                 'next() only, and a fresh iter() before every record; plus, in 3-record files, every structural byte (MTI, bitmap, prefixes, PDS '
-                'tag/length, TLV tag/length) of record k x a 10-value alphabet for k = 1..3 (whenever reading then '
+                'tag/length, TLV tag/length) of record k x a 10-value alphabet (every byte value in the length numerals) '
+                'for k = 1..3 (whenever reading then '
                 'fails, it must fail at k); records have distinct content. Oracle: exactly k-1 records are '
                 'delivered and equal the reference decode; then MciIpmDataError with record_number == k and '
                 'binary_context_data == length prefix + data of record k (framing faults: a non-empty prefix of '
